@@ -389,11 +389,67 @@ def t18_vsi(run, fx):
             run.fail(rule, "blend:vsindex-default", "the variation data index for blend does not fall back to the Private DICT vsindex (charstring vsindex used: %s, DICT default: %s)" % (uses_field, dict_default), fb.loc(t))
 
 
+def t18_mask(run, fx):
+    rule = "T18-MASK"
+    run.rule(rule, "hint mask length: the bytes read after hintmask/cntrmask are ceil(stems_len / 8), and on every path to that read the stem count has "
+                   "just been increased by half the operands left on the stack (an omitted vstem before the first mask) - a store "
+                   "`self.stems_len = checked_add(self.stems_len, len >> 1)` dominates the read; every other update of stems_len has the same form")
+    bs = [b for b in fx.bodies if b.path.endswith("CharStringVisitorContext::<'a, 'data>::visit_impl") and b.kind != "Closure"]
+    if len(bs) != 1:
+        return run.anchor_missing(rule, "visit_impl")
+    b = bs[0]
+    prov = sym.Prov(b)
+    reads = []
+    for bi, t in b.calls():
+        if callee_is(t, "read_slice") and len(t["args"]) == 2:
+            v = prov.op(t["args"][1])
+            dc = [x for x in sym.walk(v) if x[0] == "call" and (x[1] or "").endswith("::div_ceil")]
+            if dc and any(y[0] == "field" and y[2] == "stems_len" for y in sym.walk(dc[0])):
+                d = sym.strip(dc[0][2][1])
+                reads.append((bi, t, d[1] if d[0] == "c" else None))
+    stores = []
+    for bi in range(len(b.blocks)):
+        if not b.reachable(bi):
+            continue
+        for st in b.stmts(bi):
+            pl = st.get("p") or {}
+            if st.get("k") == "assign" and any(isinstance(e, dict) and e.get("n") == "stems_len" for e in pl.get("p", [])):
+                v = prov.op(st["rv"]["op"]) if st["rv"].get("k") == "use" else None
+                good = False
+                if v is not None:
+                    for x in sym.walk(v):
+                        if x[0] == "call" and (x[1] or "").endswith("::checked_add") and len(x[2]) == 2:
+                            a0, a1 = sym.strip(x[2][0]), sym.strip(x[2][1])
+                            half = a1[0] == "bin" and ((a1[1] == "Shr" and sym.strip(a1[3])[0] == "c" and sym.strip(a1[3])[1] == 1)
+                                                        or (a1[1] == "Div" and sym.strip(a1[3])[0] == "c" and sym.strip(a1[3])[1] == 2))
+                            if half and any(y[0] == "field" and y[2] == "stems_len" for y in sym.walk(a0)):
+                                good = True
+                stores.append((bi, st, good))
+    if not reads or len(stores) < 2:
+        return run.anchor_missing(rule, "mask bytes read (read_slice of stems_len.div_ceil(8)) and the two stems_len updates in visit_impl")
+    for bi, st, good in stores:
+        if good:
+            run.ok(rule, "stems_len update at %s adds half the operand count" % b.loc(st))
+        else:
+            run.fail(rule, "mask:update", "visit_impl updates stems_len with something other than checked_add(stems_len, len >> 1)", b.loc(st))
+    for bi, t, div in reads:
+        if div != 8:
+            run.fail(rule, "mask:bytes", "the hint mask length is not ceil(stems_len / 8)", b.loc(t))
+            continue
+        dom = [s for s in stores if s[2] and b.dominates(s[0], bi)]
+        if dom:
+            run.ok(rule, "mask bytes = ceil(stems_len / 8) after counting the stems still on the stack")
+        else:
+            run.fail(rule, "mask:implicit-stems", "some path reaches the read of the hint mask bytes without adding the operands left on the stack to stems_len "
+                     "(hintmask and cntrmask both take an implied vstem): the mask is read with the wrong length and the rest of the charstring is misparsed", b.loc(t))
+
+
 def check(run, fx, tier, floors=True):
     import zipalign
     zipalign.rule_zip(run, fx, "T18-Z", select=(lambda b: b.file.startswith("src/cff")) if floors else None, floors=floors, floor_n=3)
     if floors or any(b.path.endswith("::visit_impl") for b in fx.bodies):
         t18_vsi(run, fx)
+        t18_mask(run, fx)
     t18_ops(run, fx, floors)
     dom = t18_vop(run, fx, floors)
     t18_disp(run, fx, dom, floors)
